@@ -1,6 +1,8 @@
 /-
   C13 — Table scan and iterators: each member once, in ID order, sound protocol.
 -/
+import CSD.Generated.Bodies
+import CSD.Model.SourceText
 import CSD.Lemmas.PFCIter
 import CSD.Lemmas.IdIter
 
@@ -34,5 +36,14 @@ theorem id_iterator_protocol (left right : Nat) (h1 : 1 ≤ left) (h2 : left ≤
   ⟨IdIter.contig_drain left right h1 h2 h3, IdIter.contig_empty⟩
 
 example : validDict [[0x61], [0x61, 0x62], [0x62]] = true := by decide
+
+/-- The models this file's theorems are about were written against the current text of the C++
+functions they mirror (`CSD/Generated/Bodies.lean` is re-extracted from the sources on every run,
+`CSD/Model/SourceText.lean` is what was reviewed): an edit of one of these functions breaks this
+obligation even if no generated input tells the behaviours apart. -/
+theorem models_match_source_text :
+    Generated.body_PFC_ctor = SourceText.body_PFC_ctor ∧
+    Generated.body_PFC_getHeader = SourceText.body_PFC_getHeader ∧
+    Generated.body_PFC_decodeNextString = SourceText.body_PFC_decodeNextString := ⟨rfl, rfl, rfl⟩
 
 end CSD.Props.C13
